@@ -7,6 +7,11 @@
 #include <veriblock/pop/entities/popdata.hpp>
 #include <veriblock/pop/serde.hpp>
 #include <veriblock/pop/entities/address.hpp>
+#include <veriblock/pop/entities/altblock.hpp>
+#include <veriblock/pop/storage/stored_block_index.hpp>
+#include <veriblock/pop/storage/stored_btc_block_addon.hpp>
+#include <veriblock/pop/storage/stored_vbk_block_addon.hpp>
+#include <veriblock/pop/storage/stored_alt_block_addon.hpp>
 using namespace altintegration;
 #ifndef NMUT
 #define NMUT 1
@@ -41,6 +46,16 @@ typedef ATV T; static T mk() { return mkAtv(); }
 typedef VTB T; static T mk() { return mkVtb(); }
 #elif defined(M_POPDATA)
 typedef PopData T; static T mk() { PopData d; d.context.push_back(mkVbk(5)); d.vtbs.push_back(mkVtb()); d.atvs.push_back(mkAtv()); return d; }
+#elif defined(M_SBTC)
+#define NO_ESTIMATE
+typedef StoredBlockIndex<BtcBlock> T; static T mk() { T s; s.height = 77; *s.header = mkBtc(3); s.status = BLOCK_VALID_TREE | BLOCK_ACTIVE; s.addon.refs = {5, 9, 9}; return s; }
+#elif defined(M_SVBK)
+#define NO_ESTIMATE
+typedef StoredBlockIndex<VbkBlock> T; static T mk() { T s; s.height = 1003; *s.header = mkVbk(3); s.status = BLOCK_VALID_TREE; s.addon._refCount = 2; uint256 id; ((uint8_t*)id.data())[0] = 9; s.addon._vtbids = {id, id}; return s; }
+#elif defined(M_SALT)
+#define NO_ESTIMATE
+typedef StoredBlockIndex<AltBlock> T; static T mk() { T s; s.height = 12; s.header->hash = std::vector<uint8_t>(32, 5); s.header->previousBlock = std::vector<uint8_t>(32, 4); s.header->height = 12; s.header->timestamp = 1234; s.status = BLOCK_CONNECTED | BLOCK_HAS_PAYLOADS;
+  uint256 a; ((uint8_t*)a.data())[0] = 1; uint96 v; ((uint8_t*)v.data())[0] = 2; s.addon._atvids = {a}; s.addon._vtbids = {a, a}; s.addon._vbkblockids = {v}; return s; }
 #else
 #error mode
 #endif
@@ -74,7 +89,9 @@ extern "C" __attribute__((noinline)) void h_mutate() {
   if (ok) {
     auto& w2 = *new WriteStream();
     y.toVbkEncoding(w2);
+#ifndef NO_ESTIMATE
     verif_check(y.estimateSize() == w2.data().size(), 1);
+#endif
     verif_check(st.IsValid(), 2);
     verif_cover(1);
   } else {
